@@ -3,6 +3,7 @@ module verifharness
 go 1.12
 
 require (
+	github.com/dustin/go-humanize v1.0.0
 	github.com/jrivets/log4g v0.0.0-20191016233753-c02c5046dc98
 	github.com/logrange/linker v0.0.0-20190313060137-63e2b15b4d15
 	github.com/logrange/logrange v0.0.0
